@@ -62,25 +62,53 @@ def k_factory(ctx, kind, cfg, p):
     ok, holder = attempt(X.PduFactory.from_raw_to_holder, raw)
     if not ctx.check("holder", ok, "from_raw_to_holder_raised", feat, case, error=repr(holder)):
         return
-    ctx.check("holder", holder.packet_len == len(raw) and bytes(holder.pack()) == raw, "packet_len_or_pack", kind, case)
-    ctx.check("holder", int(holder.pdu_type) == h["pdu_type"] and holder.is_file_directive is (kind != "file_data")
-              and ((holder.pdu_directive_type is None) if kind == "file_data" else int(holder.pdu_directive_type) == C.DIRECTIVE_CODE[kind]),
-              "type_views", kind, case)
+    _holder_views(ctx, holder, kind, h["pdu_type"], raw, case, "fresh")
+
+
+def _holder_views(ctx, holder, kind, pdu_type, raw, case, how):
+    """Type views and the full accessor row of a holder that currently holds a PDU of `kind` packed as `raw`."""
+    ctx.check("holder", holder.packet_len == len(raw) and bytes(holder.pack()) == raw, "packet_len_or_pack", f"{kind}/{how}", case)
+    ctx.check("holder", int(holder.pdu_type) == pdu_type and holder.is_file_directive is (kind != "file_data")
+              and ((holder.pdu_directive_type is None) if kind == "file_data" else (holder.pdu_directive_type is not None and int(holder.pdu_directive_type) == C.DIRECTIVE_CODE[kind])),
+              "type_views", f"{kind}/{how}", case)
     for req, acc in ACCESSOR.items():
         ok, res = attempt(getattr(holder, acc))
         ctx.ev("holder.accessor_matrix")
-        ctx.table("accessor_matrix", f"{kind}->{req}")
+        ctx.table("accessor_matrix" if how == "fresh" else "accessor_matrix_reused_holder", f"{kind}->{req}")
         if req == kind:
             if not ok:
-                ctx.fail("holder.accessor_matrix", "matching_kind_refused", f"{kind}->{req}", case, error=repr(res))
+                ctx.fail("holder.accessor_matrix", "matching_kind_refused", f"{kind}->{req}/{how}", case, error=repr(res))
             elif res is not holder.pdu:
-                ctx.fail("holder.accessor_matrix", "not_the_held_object", f"{kind}->{req}", case)
+                ctx.fail("holder.accessor_matrix", "not_the_held_object", f"{kind}->{req}/{how}", case)
         else:
             if ok:
-                ctx.fail("holder.accessor_matrix", "foreign_kind_accepted", f"{kind}->{req}", case, observed=type(res).__name__)
+                ctx.fail("holder.accessor_matrix", "foreign_kind_accepted", f"{kind}->{req}/{how}", case, observed=type(res).__name__)
             elif not isinstance(res, TypeError):
-                ctx.fail("holder.accessor_matrix", "wrong_error", f"{kind}->{req}/{type(res).__name__}", case, error=repr(res))
+                ctx.fail("holder.accessor_matrix", "wrong_error", f"{kind}->{req}/{how}/{type(res).__name__}", case, error=repr(res))
 
+
+def k_holder_reuse(ctx, seed):
+    """One holder object that is handed a sequence of PDUs of different kinds (as a receive loop would do)."""
+    import random
+    X = C.lib()
+    r = random.Random(f"holder/{seed}")
+    case = {"k": "holder_reuse", "seed": seed}
+    ctx.case("holder_reuse", seed, sample=case)
+    holder = X.PduHolder(None)
+    prev = None
+    for step in range(r.randrange(2, 7)):
+        kind = r.choice(C.KINDS8)
+        cfg = C.rand_cfg(r, segctrl=(kind == "file_data"))
+        p = C.rand_params(r, kind, cfg, rich=False)
+        raw = C.ref_octets(kind, cfg, p)
+        obj = C.build(kind, cfg, p) if r.random() < 0.5 else X.PduFactory.from_raw(raw)
+        if r.random() < 0.5:
+            holder.pdu = obj
+        else:
+            holder.base = obj
+        ctx.table("holder_reuse_transitions", f"{prev}->{kind}")
+        prev = kind
+        _holder_views(ctx, holder, kind, 1 if kind == "file_data" else 0, raw, dict(case, step=step, kind=kind), "reused")
 
 def k_empty_holder(ctx):
     X = C.lib()
@@ -92,7 +120,7 @@ def k_empty_holder(ctx):
         ctx.check("holder.accessor_matrix", (not ok) and isinstance(res, TypeError), "empty_holder_cast", acc, {"k": "empty_holder"}, observed=repr(res))
 
 
-KINDS = {"factory": k_factory, "empty_holder": lambda ctx: k_empty_holder(ctx)}
+KINDS = {"factory": k_factory, "empty_holder": lambda ctx: k_empty_holder(ctx), "holder_reuse": k_holder_reuse}
 
 
 def run(ctx):
@@ -111,6 +139,8 @@ def run(ctx):
         kind = r.choice(C.KINDS8)
         cfg = C.rand_cfg(r, segctrl=(kind == "file_data"))
         k_factory(ctx, kind, cfg, C.rand_params(r, kind, cfg))
+    for j in range(ctx.n(600, 60_000)):
+        k_holder_reuse(ctx, ctx.seed * 1_000_003 + ctx.shard[0] * 100_003 + j)
     if ctx.shard[0] == 0:
         k_empty_holder(ctx)
 
@@ -118,5 +148,7 @@ def run(ctx):
 def conclude(ctx):
     ctx.require(len(ctx.tables.get("kind_x_config", {})) >= 8 * 128, "kind x configuration table incomplete")
     ctx.require(len(ctx.tables.get("accessor_matrix", {})) == 64, "accessor matrix incomplete")
+    ctx.require(len(ctx.tables.get("accessor_matrix_reused_holder", {})) == 64, "accessor matrix on a reused holder incomplete")
+    ctx.require(len(ctx.tables.get("holder_reuse_transitions", {})) >= 64, "holder reuse: not every (previous kind, new kind) transition observed")
     for m in ("factory.from_raw", "factory.decoded_objects_independent", "inspect.pdu_type", "inspect.is_file_directive", "inspect.pdu_directive_type", "holder", "holder.accessor_matrix"):
         ctx.require(ctx.monitors.get(m, {}).get("evaluations", 0) > 0, f"monitor {m} never evaluated")
